@@ -146,6 +146,14 @@ def m_lockf(ex, args, kw):
     return None
 
 
+def m_flock(ex, args, kw):
+    """BSD flock: a lock of another kind - on Linux it neither excludes nor is
+    excluded by the POSIX record locks (lockf) the other participants take, so
+    it does not establish the resource invariant"""
+    _fs(ex)
+    return None
+
+
 def _need_lock(ex, what):
     fs = _fs(ex)
     ex.check(f"{ex.target_short}.resource_invariant[the bitmap is {what} only under the file lock]",
@@ -213,7 +221,7 @@ def m_warn(ex, args, kw):
     return None
 
 
-_MODELS = [(os.makedirs, m_makedirs), (os.open, m_open), (fcntl.lockf, m_lockf), (os.pread, m_pread),
+_MODELS = [(os.makedirs, m_makedirs), (os.open, m_open), (fcntl.lockf, m_lockf), (fcntl.flock, m_flock), (os.pread, m_pread),
            (os.pwrite, m_pwrite), (os.write, m_write), (os.ftruncate, m_ftruncate), (os.close, m_close),
            (random.randrange, m_randrange), (L.randrange, m_randrange), (logging.warn, m_warn),
            (logging.warning, m_warn)]
